@@ -524,3 +524,228 @@ pub fn lower(exe: ExecutableProgram) -> Lowered {
         | Err(p) => Lowered::Panic(p),
     }
 }
+
+/* ------------------------------------------------------------------------- */
+/* direct host-role invocation                                               */
+/* ------------------------------------------------------------------------- */
+
+use crate::hmodel::{HV, IntTy};
+use std::rc::Rc;
+use zydeco_dynamics::syntax as ds;
+use zydeco_syntax::{
+    BuiltinValueRole, FloatLiteral, FloatOperation, FloatType, IntegerLiteral, IntegerOperation, IntegerType, Literal,
+};
+
+pub fn int_type(t: IntTy) -> IntegerType {
+    match t {
+        | IntTy::I8 => IntegerType::Int8,
+        | IntTy::I16 => IntegerType::Int16,
+        | IntTy::I32 => IntegerType::Int32,
+        | IntTy::I64 => IntegerType::Int64,
+        | IntTy::U8 => IntegerType::UInt8,
+        | IntTy::U16 => IntegerType::UInt16,
+        | IntTy::U32 => IntegerType::UInt32,
+        | IntTy::U64 => IntegerType::UInt64,
+    }
+}
+
+pub fn int_lit(t: IntTy, v: i128) -> IntegerLiteral {
+    match t {
+        | IntTy::I8 => IntegerLiteral::Int8(v as i8),
+        | IntTy::I16 => IntegerLiteral::Int16(v as i16),
+        | IntTy::I32 => IntegerLiteral::Int32(v as i32),
+        | IntTy::I64 => IntegerLiteral::Int64(v as i64),
+        | IntTy::U8 => IntegerLiteral::UInt8(v as u8),
+        | IntTy::U16 => IntegerLiteral::UInt16(v as u16),
+        | IntTy::U32 => IntegerLiteral::UInt32(v as u32),
+        | IntTy::U64 => IntegerLiteral::UInt64(v as u64),
+    }
+}
+
+/// An argument handed to a role: a model value, or continuation thunk number `k`.
+#[derive(Clone, Debug, PartialEq)]
+pub enum RoleArg {
+    Val(HV),
+    Bytes(Vec<u8>),
+    Kont(usize),
+}
+
+/// What one invocation did, decoded from the returned computation's shape.
+#[derive(Clone, Debug, PartialEq)]
+pub enum Invoked {
+    Ret(HV),
+    RetBytes(Vec<u8>),
+    /// returned some other value (handles …): rendered
+    RetOther(String),
+    /// forces continuation `k` applied to these values
+    Select(usize, Vec<Invoked>),
+    Exit(i32),
+    Panic { msg: String, file: String },
+    /// frames left on the stack differ from what the arity promises, or an unknown shape
+    Shape(String),
+}
+
+fn sem_of_hv(v: &HV) -> ds::SemValue {
+    match v {
+        | HV::Int(t, n) => ds::SemValue::Literal(Literal::Integer(int_lit(*t, *n))),
+        | HV::F64(b) => ds::SemValue::Literal(Literal::Float(FloatLiteral::Float64(*b))),
+        | HV::F32(b) => ds::SemValue::Literal(Literal::Float(FloatLiteral::Float32(*b))),
+        | HV::Str(s) => ds::SemValue::Literal(Literal::String(s.as_str().into())),
+        | HV::Char(c) => ds::SemValue::Literal(Literal::Char(*c)),
+        | HV::Bytes(b) => ds::SemValue::Host(zydeco_dynamics::host::HostValue::Bytes(b.clone().into())),
+        | HV::Unit | HV::Opaque => ds::SemValue::Triv(zydeco_syntax::Triv),
+    }
+}
+
+fn hv_of_sem(v: &ds::SemValue) -> Invoked {
+    match v {
+        | ds::SemValue::Literal(Literal::Integer(i)) => {
+            let t = match i {
+                | IntegerLiteral::Int8(_) => IntTy::I8,
+                | IntegerLiteral::Int16(_) => IntTy::I16,
+                | IntegerLiteral::Int32(_) => IntTy::I32,
+                | IntegerLiteral::Int64(_) => IntTy::I64,
+                | IntegerLiteral::UInt8(_) => IntTy::U8,
+                | IntegerLiteral::UInt16(_) => IntTy::U16,
+                | IntegerLiteral::UInt32(_) => IntTy::U32,
+                | IntegerLiteral::UInt64(_) => IntTy::U64,
+                | IntegerLiteral::Unresolved(_) => return Invoked::RetOther("unresolved integer".into()),
+            };
+            Invoked::Ret(HV::Int(t, i.value()))
+        }
+        | ds::SemValue::Literal(Literal::Float(FloatLiteral::Float64(b))) => Invoked::Ret(HV::F64(*b)),
+        | ds::SemValue::Literal(Literal::Float(FloatLiteral::Float32(b))) => Invoked::Ret(HV::F32(*b)),
+        | ds::SemValue::Literal(Literal::String(s)) => Invoked::Ret(HV::Str(s.as_str().to_string())),
+        | ds::SemValue::Literal(Literal::Char(c)) => Invoked::Ret(HV::Char(*c)),
+        | ds::SemValue::Triv(_) => Invoked::Ret(HV::Unit),
+        | ds::SemValue::Host(zydeco_dynamics::host::HostValue::Bytes(b)) => Invoked::Ret(HV::Bytes(b.to_vec())),
+        | other => Invoked::RetOther(format!("{other:?}").chars().take(80).collect()),
+    }
+}
+
+fn value_of(v: &ds::Value) -> Invoked {
+    match v {
+        | ds::Value::SemValue(s) => hv_of_sem(s),
+        | ds::Value::Lit(l) => hv_of_sem(&ds::SemValue::Literal(l.clone())),
+        | ds::Value::Thunk(_) => Invoked::RetOther("<host-made thunk>".into()),
+        | other => Invoked::RetOther(format!("{other:?}").chars().take(80).collect()),
+    }
+}
+
+/// Invoke one host role through the interpreter's own `Prim` step with the given arguments on the
+/// stack, and decode what it continues with.  `sentinel` frames below the arguments must survive.
+pub fn invoke_role(role: BuiltinValueRole, args: &[RoleArg], stdin: &[u8], argv: &[String]) -> (Invoked, Vec<u8>) {
+    use zydeco_dynamics::{Eval, Step};
+    let mut out: Vec<u8> = vec![];
+    // continuation thunks with distinguishable bodies
+    let bodies: Vec<ds::RcCompu> = (0..4)
+        .map(|k| {
+            Rc::new(ds::Computation::Ret(zydeco_syntax::Return(Rc::new(ds::Value::Lit(Literal::Integer(
+                IntegerLiteral::Int64(7000 + k),
+            ))))))
+        })
+        .collect();
+    let result = {
+        let out_ref = &mut out;
+        let bodies = bodies.clone();
+        let args = args.to_vec();
+        catch(move || {
+            let mut input = std::io::Cursor::new(stdin.to_vec());
+            let prim = ds::Prim { arity: role.arity() as u64, role };
+            let program = ds::DynamicsProgram {
+                defs: Default::default(),
+                root: Rc::new(ds::Computation::Prim(prim.clone())),
+            };
+            let mut rt = zydeco_dynamics::Runtime::new(&mut input, out_ref, argv, program);
+            // a sentinel argument below: the role must not consume it
+            let sentinel = ds::SemValue::Literal(Literal::Integer(IntegerLiteral::Int64(-424242)));
+            rt.stack.push_back(ds::SemCompu::App(sentinel));
+            for a in args.iter().rev() {
+                let v = match a {
+                    | RoleArg::Val(v) => sem_of_hv(v),
+                    | RoleArg::Bytes(b) => ds::SemValue::Host(zydeco_dynamics::host::HostValue::Bytes(b.clone().into())),
+                    | RoleArg::Kont(k) => ds::SemValue::Thunk(ds::EnvThunk {
+                        body: bodies[*k].clone(),
+                        env: zydeco_statics::environment::Env::new(),
+                    }),
+                };
+                rt.stack.push_back(ds::SemCompu::App(v));
+            }
+            let step = ds::Computation::Prim(prim).step(&mut rt);
+            let left = rt.stack.len();
+            let sentinel_ok = matches!(
+                rt.stack.back(),
+                Some(ds::SemCompu::App(ds::SemValue::Literal(Literal::Integer(IntegerLiteral::Int64(-424242)))))
+            );
+            (step, left, sentinel_ok)
+        })
+    };
+    let decoded = match result {
+        | Err(p) => Invoked::Panic { msg: p.msg, file: p.file },
+        | Ok((Step::Done(zydeco_dynamics::ProgKont::ExitCode(c)), _, _)) => Invoked::Exit(c),
+        | Ok((Step::Done(other), _, _)) => Invoked::Shape(format!("finished with {other:?}")),
+        | Ok((Step::Step(comp), left, sentinel_ok)) => {
+            if left != 1 || !sentinel_ok {
+                Invoked::Shape(format!(
+                    "the role consumed a different number of frames than its arity {}: {left} frame(s) left, sentinel intact: {sentinel_ok}",
+                    role.arity()
+                ))
+            } else {
+                decode(&comp, &bodies)
+            }
+        }
+    };
+    (decoded, out)
+}
+
+fn decode(c: &ds::Computation, bodies: &[ds::RcCompu]) -> Invoked {
+    match c {
+        | ds::Computation::Ret(zydeco_syntax::Return(v)) => value_of(v),
+        | ds::Computation::Force(zydeco_syntax::Force(v)) => match &**v {
+            | ds::Value::SemValue(ds::SemValue::Thunk(t)) => {
+                match bodies.iter().position(|b| Rc::ptr_eq(b, &t.body)) {
+                    | Some(k) => Invoked::Select(k, vec![]),
+                    | None => Invoked::Shape("forces a thunk that was not passed in".into()),
+                }
+            }
+            | other => Invoked::Shape(format!("forces {other:?}").chars().take(80).collect()),
+        },
+        | ds::Computation::VApp(zydeco_syntax::App(body, arg)) => match decode(body, bodies) {
+            | Invoked::Select(k, mut args) => {
+                args.push(value_of(arg));
+                Invoked::Select(k, args)
+            }
+            | other => other,
+        },
+        | other => Invoked::Shape(format!("{other:?}").chars().take(80).collect()),
+    }
+}
+
+pub fn int_role(t: IntTy, op: &str) -> BuiltinValueRole {
+    let o = match op {
+        | "add" => IntegerOperation::Add,
+        | "sub" => IntegerOperation::Sub,
+        | "mul" => IntegerOperation::Mul,
+        | "div" => IntegerOperation::Div,
+        | "mod" => IntegerOperation::Mod,
+        | "eq" => IntegerOperation::Eq,
+        | "lt" => IntegerOperation::Lt,
+        | "gt" => IntegerOperation::Gt,
+        | _ => IntegerOperation::ToString,
+    };
+    BuiltinValueRole::Integer(int_type(t), o)
+}
+
+pub fn float_role(is32: bool, op: &str) -> BuiltinValueRole {
+    let o = match op {
+        | "add" => FloatOperation::Add,
+        | "sub" => FloatOperation::Sub,
+        | "mul" => FloatOperation::Mul,
+        | "div" => FloatOperation::Div,
+        | "eq" => FloatOperation::Eq,
+        | "lt" => FloatOperation::Lt,
+        | "gt" => FloatOperation::Gt,
+        | _ => FloatOperation::ToString,
+    };
+    BuiltinValueRole::Float(if is32 { FloatType::Float32 } else { FloatType::Float64 }, o)
+}
